@@ -641,6 +641,34 @@ def global_value_term(repo: Repo, qual: str) -> Optional[Term]:
     return _global_terms[key]
 
 
+def resolve_namedtuples(repo: Repo, t):
+    """Construction of a repository NamedTuple followed by an element / field access is the
+    value that was passed: ``Info(a=x, b=y)[1]`` and ``Info(a=x, b=y).b`` are ``y``."""
+    if not isinstance(t, tuple):
+        return t
+    t = tuple(resolve_namedtuples(repo, x) for x in t)
+
+    def fields_of(call):
+        c = callee(call) if call and call[0] == 'call' else None
+        ci = repo.classes.get(c) if c else None
+        if ci is None or not any(str(b).endswith('NamedTuple') for b in repo.external_bases(ci)):
+            return None
+        names = [st.target.id for st in ci.node.body
+                 if isinstance(st, ast.AnnAssign) and isinstance(st.target, ast.Name)]
+        vals = dict(zip(names, call[2]))
+        vals.update({k: v for k, v in call[3] if k in names})
+        return names, vals
+    if t and t[0] == 'sub' and t[2][0] == 'const' and isinstance(t[2][1], int):
+        f = fields_of(t[1])
+        if f and 0 <= t[2][1] < len(f[0]) and f[0][t[2][1]] in f[1]:
+            return f[1][f[0][t[2][1]]]
+    if t and t[0] == 'attr':
+        f = fields_of(t[1])
+        if f and t[2] in f[1]:
+            return f[1][t[2]]
+    return t
+
+
 def resolve_globals(repo: Repo, t):
     """Module-level constant tables (dict / tuple / list literals) substituted for their names."""
     if not isinstance(t, tuple):
